@@ -314,6 +314,12 @@ theorem rfTerms_value (R : RF K) (cs : List K) (m : Nat) (env : Env K) (hE0 : en
       eval_undefFactor, npow_eq, eval_cons, pow_succ]
     ring
 
+theorem expandResponse_value (R : RF K) (env : Env K) (hE0 : env.E 0 = 1) :
+    (expandResponse R).eval env = R.value env := by
+  unfold expandResponse
+  rw [eval_foldl_add, rfTerms_value R R.B 0 env hE0, RF.value]
+  simp [RExpr.eval]
+
 /-! ### `recippartfrac` -/
 
 theorem recipRF_value (R : RF K) (env : Env K) (hd : R.delay = 0) (hx : env.x ≠ 0)
